@@ -48,7 +48,7 @@ def nonreversed(dec):
 
 
 def generate(rng, tier):
-    n = 240 if tier == "quick" else 2000
+    n = 400 if tier == "quick" else 2000
     cases = []
     while len(cases) < n:
         dec = atlas.random_decomposition(rng, max_faces=6 if tier == "thorough" else 4, rotations_only=True)
